@@ -189,6 +189,14 @@ def run_c14(rep, tier, seed):
         h, meta = gen_workload(rng, i, tier, sync=rng.choice(["none", "always"]))
         # a share of workloads continue after a crash image: restore at a random cut chosen later (second pass)
         wl.append((h, meta))
+    # directed: passes over files that hold nothing live (every key deleted, or nothing but tombstones of absent keys), with every
+    # file selected, the active one included: the inputs are removed and the only ids left are those the pass itself created
+    for di, (mfs, pre) in enumerate([(0, []), (300, []), (1 << 31, []), (0, ["reopen"]), (300, ["reopen"]), (60, ["merge"])]):
+        k1, k2 = b"k", b"key2"
+        ops = [("put", k1, b"v" * 3, "76*3"), ("put", k2, b"w" * 3, "77*3")] + [(x,) for x in pre] + [("del", k1), ("del", k2), ("merge",), ("put", k1, b"x" * 3, "78*3"), ("merge",)]
+        wl.append((Hist(f"dead{di}", f"cfg mfs={mfs} sync=none frag=0/1 dead=0 small=1099511627776 cache=0 pool=0", ops), dict(mfs=mfs, preset="all", keys=[k1, k2], cache=0, pool=0)))
+        ops = [("del", k1), ("merge",), ("del", k2), ("reopen",), ("merge",)]
+        wl.append((Hist(f"tomb{di}", f"cfg mfs={mfs} sync=none frag=0/1 dead=0 small=1099511627776 cache=0 pool=0", ops), dict(mfs=mfs, preset="all", keys=[k1, k2], cache=0, pool=0)))
     root = os.path.join(WORK, "run-C14")
     all_lines, spans = [], []
     for h, meta in wl:
@@ -199,7 +207,8 @@ def run_c14(rep, tier, seed):
         all_lines += lines
     impl, model, died = run_both_traced(all_lines, root)
     rep.cov["evaluations"] += len(all_lines)
-    nv = 0
+    nv = 0          # reports of the first pass
+    nv_o = nv_c = 0  # reports of the continuations: oracle / correspondence
     crash_lines, crash_meta = [], []
     for (start, ln, h, meta, tags) in spans:
         lines = all_lines[start:start + ln]
@@ -213,6 +222,7 @@ def run_c14(rep, tier, seed):
         mon = TraceMonitor(meta["mfs"])
         ncalls = 0
         problem = None
+        present, low_cuts = set(), []
         for li, (l, a) in enumerate(zip(lines, i2)):
             if l in ("open", "reopen"):
                 mon.new_life()
@@ -222,6 +232,15 @@ def run_c14(rep, tier, seed):
                 w = mon.feed(c)
                 if w and not problem:
                     problem = ("oracle", w, li, "append-only / fresh ids / bounded size", c)
+                p_ = c.split(":")
+                if p_[0] == "c":
+                    present.add(p_[1])
+                elif p_[0] == "u":
+                    present.discard(p_[1])
+                # an instant at which the highest id the directory has ever contained is no longer in it: whoever opens
+                # the directory left by a crash right here has nothing to tell it which ids are used up
+                if mon.ever and (not present or max(fid(n) for n in present) < max(mon.ever)):
+                    low_cuts.append(ncalls)
             if a.startswith("panic") or a.startswith("err"):
                 problem = problem or ("oracle", f"`{l[:50]}` failed", li, "ok", a)
         if not problem:
@@ -255,15 +274,21 @@ def run_c14(rep, tier, seed):
                 l3.append("files")
                 a3, b3, d3 = run_both_traced(l3, root + "-shrink")
                 rep.violation(problem[0], dict(what=problem[1], script=l3, impl_answers=a3, model_answers=b3, expected=str(problem[3])[:800], observed=str(problem[4])[:800]))
-            continue
+            if problem[0] == "oracle":
+                continue
+            # the model no longer describes this workload: its crash images are still opened by the real code below (the search
+            # for an input on which the property itself fails); only the comparison with the model is left out for them
         # crashed directories: the id chosen after recovery is above every id ever used before the cut
         if ncalls > 0:
             for _ in range(3 if tier == "quick" else 8):
                 i = rng.randint(0, ncalls)
-                crash_lines.append((start, ln, i))
+                crash_lines.append((start, ln, i, problem is None))
+            for i in low_cuts[:2] + low_cuts[-1:]:
+                rep.count("cuts_with_the_highest_id_absent")
+                crash_lines.append((start, ln, i, problem is None))
     # second pass: for sampled cuts, continue the workload after the crash and keep monitoring (ids stay fresh across lives)
     lines2, spans2 = [], []
-    for (start, ln, cut) in crash_lines:
+    for (start, ln, cut, tied) in crash_lines:
         base = all_lines[start:start + ln - 1]
         h = next(s[2] for s in spans if s[0] == start)
         meta = next(s[3] for s in spans if s[0] == start)
@@ -273,12 +298,12 @@ def run_c14(rep, tier, seed):
         # truncate or reopen for writing what an earlier life wrote
         torn = rng.choice([0, 0, 0, 1, 9, 17])
         tail = [f"restore {cut} {torn}", "open", f"put {hx(k)} 77", "merge", "reopen", f"put {hx(k)} 78", "files"]
-        spans2.append((len(lines2), len(base) + len(tail), meta, cut, len(base)))
+        spans2.append((len(lines2), len(base) + len(tail), meta, cut, len(base), tied))
         lines2 += base + tail
     if lines2:
         impl2, model2, died2 = run_both_traced(lines2, root)
         rep.cov["evaluations"] += len(lines2)
-        for (start, ln, meta, cut, nbase) in spans2:
+        for (start, ln, meta, cut, nbase, tied) in spans2:
             ls, a2, b2 = lines2[start:start + ln], impl2[start:start + ln], model2[start:start + ln]
             if len(a2) < ln:
                 rep.violation("oracle", dict(what="harness died while continuing after a crash image", script=ls, impl_answers=a2))
@@ -302,19 +327,20 @@ def run_c14(rep, tier, seed):
                 if a2[li].startswith("panic") or a2[li].startswith("err") or a2[li].startswith("restore-error"):
                     bad = bad or (f"`{ls[li]}` failed after recovery from a crash image", li, a2[li])
             if bad:
-                nv += 1
-                if nv <= 3:
+                nv_o += 1
+                if nv_o <= 3:
                     rep.violation("oracle", dict(what=bad[0] + " (after recovering the directory left by a crash)", script=ls, failing_line=bad[1], observed=bad[2], impl_answers=a2))
-            elif [nohint(no_sync(x), l) for x, l in zip(a2, ls)] != [nohint(no_sync(x), l) for x, l in zip(b2, ls)]:
-                nv += 1
-                if nv <= 3:
+            elif tied and [nohint(no_sync(x), l) for x, l in zip(a2, ls)] != [nohint(no_sync(x), l) for x, l in zip(b2, ls)]:
+                nv_c += 1
+                if nv_c <= 2:
                     d = next(i for i in range(ln) if nohint(no_sync(a2[i]), ls[i]) != nohint(no_sync(b2[i]), ls[i]))
                     rep.violation("correspondence", dict(what="after a crash image the real code and the model diverge", script=ls, failing_line=d, expected=b2[d][:800], observed=a2[d][:800]))
             rep.nontrivial(["c14c", ls])
     rep.cov["rule"] = ("seeded workloads of put/del/merge/reopen (sync none/always, all max_file_size and merge presets) under the LD_PRELOAD recorder: every call on a store file is checked "
                        "(exclusive-create+append-only open flags; no rename/truncate/pwrite/writable mmap; append only to files this process created and has not removed; every created id above "
                        "every id ever present; data file <= max_file_size before each entry append) and the logical trace is compared with the Lean model's; sampled crash cuts are restored into the "
-                       "directory and the workload continues (put, merge, reopen) with the same monitor; non-trivial = distinct workload")
+                       "directory and the workload continues (put, merge, reopen) with the same monitor, as is every cut at which the highest id ever used is absent from the directory (none on a tree that creates its outputs before it removes its inputs); "
+                       "directed workloads merge files that hold nothing live with every file selected; non-trivial = distinct workload")
     for (start, ln, h, meta, tags) in spans[:2]:
         rep.sample({"script": all_lines[start:start + ln][:12], "impl": [x[:200] for x in impl[start:start + ln][:12]]})
 
